@@ -150,9 +150,9 @@ func redactNamespace(cmd *orderedmap.OrderedMap[string, any]) {
 	}
 }
 
-// stageNamespaceString recognises the short forms {$out: "coll"} and {$unionWith: "coll"}.
+// stageNamespaceString recognises the short forms {$out: "coll"}, {$unionWith: "coll"} and {$merge: "coll"}.
 func stageNamespaceString(key string, value any) (string, bool) {
-	if !redactNamespaces || (key != "$out" && key != "$unionWith") {
+	if !redactNamespaces || (key != "$out" && key != "$unionWith" && key != "$merge") {
 		return "", false
 	}
 	name, ok := value.(string)
